@@ -27,6 +27,60 @@ func c11Typed(x *runCtx) {
 		for i := 0; i < per; i++ {
 			c11TypedOne(x, f, wt)
 		}
+		c11IntBoundaries(x, wt)
+	}
+}
+
+// c11IntBoundaries: for an integer target, the extreme and neighbouring values of its range.
+func c11IntBoundaries(x *runCtx, wt wireType) {
+	v := reflect.ValueOf(wt.Mk()).Elem()
+	var vals []func(reflect.Value)
+	switch v.Kind() {
+	case reflect.Int, reflect.Int8, reflect.Int16, reflect.Int32, reflect.Int64:
+		bits := uint(v.Type().Bits())
+		min := int64(-1) << (bits - 1)
+		for _, n := range []int64{min, min + 1, min / 2, -25, -24, -1, 0, 23, 24, -min - 2, -min - 1} {
+			n := n
+			vals = append(vals, func(t reflect.Value) { t.SetInt(n) })
+		}
+	case reflect.Uint, reflect.Uint8, reflect.Uint16, reflect.Uint32, reflect.Uint64:
+		max := ^uint64(0) >> (64 - uint(v.Type().Bits()))
+		for _, n := range []uint64{0, 23, 24, 255, max / 2, max - 1, max} {
+			n := n
+			if n <= max {
+				vals = append(vals, func(t reflect.Value) { t.SetUint(n) })
+			}
+		}
+	default:
+		return
+	}
+	for _, set := range vals {
+		p := wt.Mk()
+		set(reflect.ValueOf(p).Elem())
+		b, err := cbor.Marshal(p)
+		if err != nil {
+			x.r.Violate(rep.Violation{Kind: "oracle", Check: "C11.typed-roundtrip", Signature: "C11.typed:encode-fails:" + wt.Name,
+				Input: fmt.Sprintf("%s %v", wt.Name, reflect.ValueOf(p).Elem().Interface()), Impl: err.Error(), PropertyFails: true})
+			continue
+		}
+		h := gen.Hex(b)
+		x.r.Case("typed-int:"+wt.Name+":"+h, true, "typed-int-boundary")
+		q := wt.Mk()
+		if err := cbor.Unmarshal(b, q); err != nil {
+			x.r.Violate(rep.Violation{Kind: "oracle", Check: "C11.typed-roundtrip", Signature: "C11.typed:decode-of-encode-fails:" + wt.Name,
+				Input: wt.Name + " " + h, Impl: err.Error(), PropertyFails: true})
+		} else if !reflect.DeepEqual(reflect.ValueOf(p).Elem().Interface(), reflect.ValueOf(q).Elem().Interface()) {
+			x.r.Violate(rep.Violation{Kind: "oracle", Check: "C11.typed-roundtrip", Signature: "C11.typed:value-changed:" + wt.Name,
+				Input: wt.Name + " " + h, Impl: fmt.Sprint(reflect.ValueOf(q).Elem().Interface()), PropertyFails: true})
+		}
+		if typedModelled(wt.Name) {
+			ok, consumed, reenc, _ := decodeTypedImpl(wt, b)
+			impl := "err"
+			if ok {
+				impl = fmt.Sprintf("ok %d %s", consumed, reenc)
+			}
+			x.c.add(pending{check: "C11.typed-int:" + wt.Name, line: "cbor.typed " + wt.Name + " " + h, impl: impl, input: wt.Name + " " + h, norm: typedNorm})
+		}
 	}
 }
 
